@@ -12,7 +12,6 @@ import (
 	"fmt"
 	"net/http"
 	"net/http/httptest"
-	"testing"
 
 	"github.com/dadrus/heimdall/internal/handler/middleware/http/errorhandler"
 	"github.com/dadrus/heimdall/internal/handler/middleware/http/recovery"
@@ -73,11 +72,8 @@ func panicValue(kind string) (any, string) {
 	return "?", "PkOther"
 }
 
-func TestVerifC19Req(t *testing.T) {
-	w := vf.NewWriter()
-	defer w.Close()
-
-	root := vf.NewRand(vf.Seed())
+func runReq(w *vf.Writer, nrand int) {
+	root := vf.NewRand(vf.Seed() + 29)
 
 	var cases []reqCase
 
@@ -92,7 +88,7 @@ func TestVerifC19Req(t *testing.T) {
 		cases = append(cases, reqCase{Kind: "recover", Status: s})
 	}
 
-	for i := 0; i < vf.N(60); i++ {
+	for i := 0; i < nrand; i++ {
 		r := root.Fork(uint64(i))
 		c := reqCase{Kind: "extract"}
 
@@ -109,7 +105,8 @@ func TestVerifC19Req(t *testing.T) {
 
 	mw := recovery.New(errorhandler.New())
 
-	for i, c := range cases {
+	for k, c := range cases {
+		i := 200000 + k
 		if !vf.Want(i) {
 			continue
 		}
@@ -191,7 +188,7 @@ func TestVerifC19Req(t *testing.T) {
 			tags = []string{"kind=recover", "panic=" + c.Panic}
 		}
 
-		w.Put(vf.Obs{I: i, Stream: "request", In: c, Out: out, Coq: coq,
+		w.Put(vf.Obs{I: i, Stream: "request", In: c, Out: out, Coq: "(MQ " + coq + ")",
 			Nontrivial: c.Kind != "recover" || c.Panic != "", Tags: tags})
 	}
 }
